@@ -2556,7 +2556,7 @@ impl Command for FileQuery {
             // be "1.20345.01/02/93.03:04:30<cr>"
             3 => {
                 if let Ok(data) = fs::metadata(file_name) {
-                    let time = data.modified().unwrap().duration_since(UNIX_EPOCH).unwrap();
+                    let time = data.modified().unwrap_or(UNIX_EPOCH).duration_since(UNIX_EPOCH).unwrap_or_default();
                     if let Some(time) = NaiveDateTime::from_timestamp_opt(time.as_secs() as i64, 0) {
                         return Ok(CallbackAction::SendString(format!(
                             "1.{}.{:02}.{:02}.{:02}.{:02}:{:02}:{:02}\r\n",
@@ -2581,7 +2581,7 @@ impl Command for FileQuery {
             // the file extension adds another period into the return text.
             4 => {
                 if let Ok(data) = fs::metadata(file_name) {
-                    let time = data.modified().unwrap().duration_since(UNIX_EPOCH).unwrap();
+                    let time = data.modified().unwrap_or(UNIX_EPOCH).duration_since(UNIX_EPOCH).unwrap_or_default();
                     if let Some(time) = NaiveDateTime::from_timestamp_opt(time.as_secs() as i64, 0) {
                         return Ok(CallbackAction::SendString(format!(
                             "1.{}.{}.{:02}.{:02}.{:02}.{:02}:{:02}:{:02}\r\n",
